@@ -156,6 +156,9 @@ func (ex *explorer) worker() {
 func (ex *explorer) merge(pr *pathResult) {
 	r := ex.res
 	r.Paths++
+	if progressEvery > 0 && r.Paths%progressEvery == 0 {
+		fmt.Fprintf(os.Stderr, "progress: paths=%d work=%d obligations=%d unknown=%d violations=%d last=%s/%s steps=%d forks=%d\n", r.Paths, len(ex.work), r.Obligations, r.Unknown, len(r.Violations), pr.status, pr.detail, pr.steps, pr.forks)
+	}
 	r.Obligations += pr.obligs
 	r.Discharged += pr.discharged
 	r.Unknown += pr.unknown
@@ -349,7 +352,11 @@ func (r *Result) Summary() string {
 	return b.String()
 }
 
-var _ = os.Stderr
+var progressEvery = func() int {
+	n := 0
+	fmt.Sscanf(os.Getenv("SYMGO_PROGRESS"), "%d", &n)
+	return n
+}()
 
 func (i *interpreter) stackString() string {
 	st := i.stackAtPanic
